@@ -16,8 +16,9 @@ velocities / uncertainties, `κ` = survey keys, `υ` = unit tags.  The driver in
 * `t_ref`: `False` -> none, `None` -> earliest time, a `Time` -> that value, anything else `TypeError`.
 
 `validate_prepare_data(data, poly_trend, n_offsets)` for a list / dict of sources: concatenate, label every
-row with the key of its source, sort everything by time with one common permutation, indicator columns from
-the sorted distinct keys (the smallest key is the offset-free reference).
+row with the key of its source, rows and labels in one common order (any permutation of the concatenation),
+indicator columns from the sorted distinct keys (the smallest key is the offset-free reference), reference
+epoch = earliest epoch.
 -/
 namespace Data
 universe u
@@ -238,16 +239,25 @@ def catIds (svs : List (κ × Survey τ ν)) : List κ := svs.flatMap (fun p => 
 def labelled (svs : List (κ × Survey τ ν)) : List (τ × ν × ν × κ) :=
   svs.flatMap (fun p => (p.2.t.zip (p.2.rv.zip p.2.err)).map (fun o => (o.1, o.2.1, o.2.2, p.1)))
 
-/-- `validate_prepare_data` on several sources; `perm` = what `argsort` came up with for the merged times -/
+/-- earliest time of a list (`Time.min`); `none` for an empty one -/
+def minT (le : τ → τ → Bool) : List τ → Option τ
+  | [] => none
+  | m :: r => some (r.foldl (fun a x => if le a x then a else x) m)
+
+/-- `validate_prepare_data` on several sources.  The property (C08) does not say in which order the merged rows
+come out — only that they are the union of the inputs and that every row keeps the label of its source — so the
+model takes the row order as an argument: `perm` is the order in which the implementation holds the rows of the
+concatenation; it is accepted iff it is a permutation of all positions (time-sorted, concatenation order, anything
+else), and the labels are gathered by the very same permutation.  The reference epoch is the earliest epoch. -/
 def merge [LT κ] [DecidableLT κ] [DecidableEq κ] (le : τ → τ → Bool)
     (svs : List (κ × Survey τ ν)) (nOffsets : Nat) (perm : List Nat) : Except Err (Merged κ τ ν) :=
   if svs.any (fun p => p.2.hasCov) then .error .notimpl else
   if (uniq (catIds svs)).length ≠ nOffsets + 1 then .error .value else
-  if !validPerm le (catT svs) perm then .error .badperm else
-  match gather perm (catT svs) with
-  | [] => .error .value
-  | m :: r => .ok { t := m :: r, rv := gather perm (catRv svs), err := gather perm (catErr svs),
-                    ids := gather perm (catIds svs), tref := m }
+  if !isPermOfRange perm (catT svs).length then .error .badperm else
+  match minT le (gather perm (catT svs)) with
+  | none => .error .value
+  | some m0 => .ok { t := gather perm (catT svs), rv := gather perm (catRv svs), err := gather perm (catErr svs),
+                     ids := gather perm (catIds svs), tref := m0 }
 
 /-- the list form `[d0, d1, …]` is the dict `{0: d0, 1: d1, …}` -/
 def listInput (ds : List (Survey τ ν)) : List (Nat × Survey τ ν) := ds.zipIdx.map (fun x => (x.2, x.1))
